@@ -9,6 +9,7 @@ use vreplay::*;
 mod comm;
 mod fail;
 mod ident;
+mod life;
 mod lookup;
 mod spawn;
 
@@ -21,6 +22,7 @@ fn main() {
         "fail" => fail::run(&a),
         "comm" => comm::run(&a),
         "ident" => ident::run(&a),
+        "life" => life::run(&a),
         "lookup" => lookup::run(&a),
         _ => {
             eprintln!("unknown family {}", fam);
